@@ -90,7 +90,7 @@ func nodeUses(v ssa.Value, depth int) (writes, reads []ssa.Instruction) {
 func runC10(c *Ctx) {
 	L, P := c.L, c.P
 	L.Rule("R-C10-STALE", "no write through a node value after a later may-grow call (re-read required); stale reads are advisories", 4)
-	L.Rule("R-C10-FREELIST", "free-list pop/push ordering and counters; every new page zeroed and stamped", 5)
+	L.Rule("R-C10-FREELIST", "free-list pop/push ordering and counters; every new page wiped entirely and stamped; setBit clears stale flag bits; the uint64 page view stays inside the page", 7)
 	L.Rule("R-C10-RESET", "Reset re-initialises every field mutators write", 1)
 	L.Rule("R-C10-SPLIT", "split range/count conservation; root split shape", 2)
 	L.Rule("R-C10-CMP", "comparison polarities in compact/IterateKV/get/search", 5)
@@ -233,9 +233,64 @@ func runC10(c *Ctx) {
 		// every returned page is zeroed and stamped with its id
 		b1, _ := mustPass(entryPos(fn), isInstr(zero), nil)
 		b2, _ := mustPass(entryPos(fn), isInstr(stamp), nil)
-		okStamp := b1 == nil && b2 == nil && zero.Call.Args[0] != nil && stamp.Call.Args[0] == ssa.Value(nodeCall) &&
+		zeroArg := zero.Call.Args[0]
+		for {
+			if ct, ok := zeroArg.(*ssa.ChangeType); ok {
+				zeroArg = ct.X
+				continue
+			}
+			break
+		}
+		// the WHOLE page is wiped (a recycled page keeps no flag bits, key count or stale entries)
+		okStamp := b1 == nil && b2 == nil && zeroArg == ssa.Value(nodeCall) && stamp.Call.Args[0] == ssa.Value(nodeCall) &&
 			tb.T(stamp.Call.Args[1]).String() == "call[z.keyOffset](global[maxKeys])" && stamp.Call.Args[2] == nodeCall.Call.Args[1] && instrDominates(zero, stamp)
 		L.Check(okStamp, "R-C10-FREELIST", "Tree.newNode#init", "every page handed out is zeroed, then stamped with its own page id at keyOffset(maxKeys)", "a page can be returned without being zeroed and stamped with its page id", fn.Pos())
+	})
+	c.Group("R-C10-FREELIST", "node.setBit", func() {
+		fn := P.Fn("z", "node", "setBit")
+		L.Analysed(fname(fn))
+		tb := newTB(fn)
+		ok := false
+		var got string
+		eachInstr(fn, func(in ssa.Instruction) {
+			if st, isSt := in.(*ssa.Store); isSt {
+				got = tb.T(st.Val).String()
+				cell := tb.pointee(st.Addr).String()
+				// n[vo] = (n[vo] & 0xFFFFFFFF) | b : the old flag bits are cleared, the key count kept
+				for _, pat := range []string{"or(and(" + cell + ",c[4294967295]),p[1])", "or(p[1],and(" + cell + ",c[4294967295]))", "or(and(c[4294967295]," + cell + "),p[1])", "or(p[1],and(c[4294967295]," + cell + "))"} {
+					if Match(pat, tb.T(st.Val), nil) && cell == "idx(p[0],call[z.valOffset](global[maxKeys]))" {
+						ok = true
+					}
+				}
+			}
+		})
+		L.Check(ok, "R-C10-FREELIST", "node.setBit", "flag word := (old & 0xFFFFFFFF) | bit — stale flag bits of a recycled page are cleared, the key count is kept", "setBit stores "+got+": it must clear the old flag bits (keep only the low 32 bits) before or-ing the new ones, otherwise a recycled leaf page stays a leaf when reused as an inner node", fn.Pos())
+	})
+	c.Group("R-C10-FREELIST", "BytesToUint64Slice", func() {
+		fn := P.Fn("z", "", "BytesToUint64Slice")
+		L.Analysed(fname(fn))
+		tb := newTB(fn)
+		okLen, okCap := false, false
+		var got string
+		eachInstr(fn, func(in ssa.Instruction) {
+			st, isSt := in.(*ssa.Store)
+			if !isSt {
+				return
+			}
+			fa, isFA := st.Addr.(*ssa.FieldAddr)
+			if !isFA || recvName(fa.X.Type()) != "SliceHeader" {
+				return
+			}
+			switch fieldName(fa.X.Type(), fa.Field) {
+			case "Len":
+				got = tb.T(st.Val).String()
+				okLen = got == "quo(call[len](p[0]),c[8])" || got == "shr(call[len](p[0]),c[3])"
+			case "Cap":
+				ct := tb.T(st.Val).String()
+				okCap = ct == "quo(call[len](p[0]),c[8])" || ct == "shr(call[len](p[0]),c[3])" || strings.HasPrefix(ct, "fld[Len](")
+			}
+		})
+		L.Check(okLen && okCap, "R-C10-FREELIST", "BytesToUint64Slice", "the uint64 view covers len(b)/8 words (rounded down), cap = len", "the uint64 view of a page has "+got+" words: anything but len(b)/8 rounded down lets a page's view reach into the next page (zeroing or shifting one page then corrupts its neighbour)", fn.Pos())
 	})
 	c.Group("R-C10-FREELIST", "Tree.compact", func() {
 		fn := P.Fn("z", "Tree", "compact")
